@@ -77,6 +77,20 @@ func init() {
 	mut("C31", "init-skips-decode-errors", idx, "\t\tblk, err := chain.UnmarshalExecutedBlock(value, i.parser)\n\t\tif err != nil {\n\t\t\treturn err\n\t\t}", "\t\tblk, err := chain.UnmarshalExecutedBlock(value, i.parser)\n\t\tif err != nil {\n\t\t\tcontinue\n\t\t}", "undecodable stored blocks silently dropped at restart")
 	mut("C31", "tx-index-constant", idx, "\t\t\tindex:     idx,", "\t\t\tindex:     idx - idx,", "every transaction mapped to position 0")
 
+	proc, txf := "chain/processor.go", "chain/transaction.go"
+	mut("C01", "commit-before-execute", proc, "\t\t\tresults[i] = result\n\n\t\t\t// Commit results to parent [TState]\n\t\t\ttsv.Commit()\n\t\t\treturn nil", "\t\t\tresults[i] = result\n\t\t\treturn nil", "task never publishes its writes")
+	mut("C01", "view-scope-not-conflict-keys", proc, "\t\t\ttsv := ts.NewView(\n\t\t\t\tstateKeys,\n\t\t\t\tstate.ImmutableStorage(storage),", "\t\t\ttsv := ts.NewView(\n\t\t\t\tstate.CompletePermissions,\n\t\t\t\tstate.ImmutableStorage(storage),", "task may touch keys the executor did not order")
+	mut("C01", "executor-wait-ignored", proc, "\tif err := e.Wait(); err != nil {\n\t\treturn nil, nil, err\n\t}", "\t_ = e.Wait()", "results returned although a task failed")
+	mut("C01", "shared-result-slot", proc, "\t\t\tresults[i] = result", "\t\t\tresults[i%2] = result", "concurrent tasks write the same result slots")
+	mut("C03", "rollback-dropped", txf, "\t\t\tts.Rollback(ctx, actionStart)\n", "\t\t\t_ = actionStart\n", "failed actions keep their writes")
+	mut("C03", "deduct-error-swallowed", txf, "\tif err := bh.Deduct(ctx, t.Auth.Sponsor(), ts, fee); err != nil {\n\t\t// This should never fail for low balance (as we check [CanDeductFee]\n\t\t// immediately before).\n\t\treturn nil, fmt.Errorf(\"failed to deduct tx fee: %w\", err)\n\t}", "\t_ = bh.Deduct(ctx, t.Auth.Sponsor(), ts, fee)", "actions run although the fee was not paid")
+	mut("C03", "checkpoint-inside-loop", txf, "\t\tactionOutput, err := action.Execute(ctx, r, ts, timestamp, t.Auth.Actor(), CreateActionID(t.GetID(), uint8(i)))", "\t\tactionStart = ts.OpIndex()\n\t\tactionOutput, err := action.Execute(ctx, r, ts, timestamp, t.Auth.Actor(), CreateActionID(t.GetID(), uint8(i)))", "only the failing action is rolled back")
+	mut("C03", "result-fee-not-charged-fee", txf, "\t\t\t\tUnits:   units,\n\t\t\t\tFee:     fee,", "\t\t\t\tUnits:   units,\n\t\t\t\tFee:     0,", "failed result reports a fee that was not the one charged")
+	mut("C16", "signature-error-swallowed", proc, "\terr := sigJob.Wait()\n\tif err != nil {\n\t\treturn fmt.Errorf(\"signatures failed verification: %w\", err)\n\t}", "\terr := sigJob.Wait()\n\tif err != nil {\n\t\tp.metrics.waitSignaturesCount.Inc()\n\t}", "invalid signatures accepted")
+	mut("C16", "signed-bytes-not-unsigned-bytes", proc, "\t\tunsignedTxBytes := tx.UnsignedBytes()", "\t\tunsignedTxBytes := tx.Bytes()", "auth verified over the wrong message")
+	mut("C16", "leftover-batch-dropped", "chain/auth_batch.go", "\t\tfor _, item := range bw.bv.Done() {\n\t\t\ta.job.Go(item)\n\t\t\ta.log.Debug(\"enqueued batch for processing during done\")\n\t\t}", "\t\t_ = bw.bv.Done()", "last partial batch never verified")
+	mut("C16", "unbatched-auth-skipped", "chain/auth_batch.go", "\t\ta.job.Go(func() error { return auth.Verify(context.TODO(), digest) })\n\t\treturn", "\t\ta.job.Go(func() error { _ = context.TODO(); return nil })\n\t\treturn", "auth types without a batch verifier are never verified")
+
 	vw := "internal/validitywindow/validitywindow.go"
 	mut("C10", "expiry-boundary", vw, "case containerTimestamp < executionTimestamp:", "case containerTimestamp <= executionTimestamp:", "expiry equal to block time rejected")
 	mut("C10", "future-boundary", vw, "case containerTimestamp > executionTimestamp+validityWindow:", "case containerTimestamp >= executionTimestamp+validityWindow:", "upper boundary off by one")
